@@ -25,6 +25,13 @@ def total(doc):
     return c
 
 
+def records_and_bundles(d):
+    """records (strict, in order) of the document and of each bundle, by bundle identifier.  The statement promises
+    'without changing d' for a refused add_bundle; for a refused bundle() it promises nothing beyond conservation of
+    records, and bundle() does register the namespace of a qualified-name argument before it looks the identifier up."""
+    return tuple((k, recs) for k, recs, _ in observable_doc(d))
+
+
 class C09Oracle(worldprop.Oracle):
     def before(self, idx, op):
         k = op[0]
@@ -46,7 +53,7 @@ class C09Oracle(worldprop.Oracle):
                             [b.identifier.uri for b in d.bundles])
             elif k == "NewBundle":
                 d = self.im.docs[int(op[1])]
-                self.pre = ("newb", observable_doc(d), len(d._bundles))
+                self.pre = ("newb", records_and_bundles(d), len(d._bundles))
         except IndexError:
             self.pre = None
 
@@ -118,14 +125,35 @@ class C09Oracle(worldprop.Oracle):
         elif k == "newb":
             _, dobs, nb = self.pre
             d = self.im.docs[int(op[1])]
-            if raised and observable_doc(d) != dobs:
-                self.fail(idx, "bundle() raised but changed the document")
+            if raised and records_and_bundles(d) != dobs:
+                self.fail(idx, "bundle() raised but changed the document's records or bundles")
             if not raised and len(d._bundles) != nb + 1:
                 self.fail(idx, "bundle() did not add exactly one bundle")
 
 
 def nontrivial(ops):
     return sum(1 for o in ops if o[0] in ("Update", "AddBundleDoc", "Flattened", "NewBundle")) >= 2
+
+
+def fixed_programs():
+    """add_bundle of two documents under the same identifier string, the prefix being declared by the added documents
+    only (the second call must be refused and change nothing), and under a prefix the target binds differently"""
+    out = []
+    for target_binds in (None, "http://other.org/"):
+        p = [["NewDoc"]]
+        if target_binds:
+            p.append(["AddNs", ["d", "0"], "ex", target_binds])
+        p += [["NewRecord", ["d", "0"], "Entity", ["Q", "t", "http://t.test/", "top"], []],
+              ["NewDoc"], ["AddNs", ["d", "1"], "ex", "http://example.org/"],
+              ["NewRecord", ["d", "1"], "Entity", ["S", "ex:e1"], [[["S", "ex:k"], ["int", "1"]]]],
+              ["NewDoc"], ["AddNs", ["d", "2"], "ex", "http://example.org/"],
+              ["NewRecord", ["d", "2"], "Entity", ["S", "ex:e2"], []],
+              ["AddBundleDoc", "0", "1", ["S", "ex:b"], ["ex"]],
+              ["AddBundleDoc", "0", "2", ["S", "ex:b"], ["ex"]],
+              ["AddBundleDoc", "0", "2", ["Q", "ex", "http://example.org/", "b"], ["ex"]],
+              ["Flattened", "0"], ["Update", ["d", "2"], ["d", "0"]]]
+        out.append(p)
+    return out
 
 
 def run(tier, seed, log, model_runs=True, enlarged=False):
@@ -136,6 +164,7 @@ def run(tier, seed, log, model_runs=True, enlarged=False):
                                    "prefixes, differing default namespaces, repeated identifiers; update/add_bundle/bundle()/flattened "
                                    "in sequences); conservation judged on strict record multisets before/after each such call; "
                                    "non-trivial = >=2 of those calls",
+                         extra_cases=fixed_programs(),
                          theorem_note="C09_* over World.add_record / Interp.step")
 
 
